@@ -19,3 +19,13 @@ Definition pay_b : txdata := mkD 902 G0 0 [mkIn 0 101 0 100000000 (Some 6)]
 Definition pay_c : txdata := mkD 903 G0 0 [mkIn 0 901 1 39995301 (Some 8)]
       [(mkOut 0 39990000 None false, true)] [].
 
+
+(* two accounts whose key ids interleave: keys 6 and 9 belong to account 0, key 8 to account 1 *)
+Definition G1 : grp := (0, 1).
+Definition recv_a0 : op := UtxosUpdate false G0 None [mkP 6 201 0 100000 5; mkP 9 203 1 400000 5].
+Definition recv_a1 : op := UtxosUpdate false G1 None [mkP 8 202 0 20000 5].
+(* a payment of account 1 to an external address, change to key 8 of account 1 *)
+Definition pay_a1 : txdata := mkD 904 G1 0 [mkIn 0 202 0 20000 (Some 8)]
+      [(mkOut 0 12000 None false, true); (mkOut 1 7000 (Some 8) false, true)] [].
+(* utxo_add on an address of account 1: the transaction row is filed under account 0 *)
+Definition recv_cross : op := UtxosUpdate false G0 None [mkP 8 204 0 5000 3].
